@@ -192,7 +192,7 @@ Section Proofs.
   Definition expected_n (K : klass) (i : img) : img :=
     match alias i with
     | None => harm K i
-    | Some a => match resolve a (data i) with None => i | Some r => harm K (with_dt r i) end
+    | Some a => match resolve a (data i) with None => i | Some _ => harm K i end
     end.
 
   Lemma nifti_save_final K od s :
@@ -204,8 +204,8 @@ Section Proofs.
       unfold bind at 1. cbn [mod_img]. unfold finally.
       match goal with |- context [analyze_core _ _ _ _ _ _ _ _ _ ?x] =>
         pose proof (analyze_core_final K od x) as H; destruct (analyze_core o dt_ok wfail scale nslabs exts D K od x) as [rr s2] end.
-      cbn [snd rimg] in *. rewrite H. unfold harm, with_dt.
-      destruct (rimg s) as [h al0 d0 a0]. cbn in *. subst al0. destruct (nifti K); reflexivity.
+      cbn [snd rimg] in *. rewrite H. unfold harm.
+      destruct (rimg s) as [[o0 d0 s0 n0 m0] al0 da0 a0]. cbn in *. subst al0. destruct (nifti K); reflexivity.
     - unfold finally.
       pose proof (analyze_core_final K od s) as H.
       destruct (analyze_core o dt_ok wfail scale nslabs exts D K od s) as [rr s2].
@@ -265,41 +265,19 @@ Proof.
   destruct i as [[o0 d0 s0 n0 m0] a da af]. cbn in *. rewrite <- (H eq_refl). reflexivity.
 Qed.
 
-Lemma expected_stable resolve K i :
-  harmonised K i -> alias_stable resolve i -> expected resolve K i = i.
+Lemma expected_id resolve K i : harmonised K i -> expected resolve K i = i.
 Proof.
-  intros Hh Ha. unfold expected, alias_stable in *. destruct (fam K); try reflexivity.
+  intros Hh. unfold expected. destruct (fam K); try reflexivity.
   destruct (nifti K) eqn:En; [|reflexivity].
-  destruct (alias i) as [a|] eqn:Ea; [|now apply harm_id].
-  destruct (resolve a (data i)) as [r|]; [|reflexivity]. subst r.
-  replace (with_dt (dt (ih i)) i) with i by (destruct i as [[? ? ? ? ?] ? ? ?]; reflexivity).
-  now apply harm_id.
+  destruct (alias i) as [a|]; [|now apply harm_id].
+  destruct (resolve a (data i)); [now apply harm_id|reflexivity].
 Qed.
 
+(* every run — any oracle, any outcome, any pending alias — ends in the initial state *)
 Lemma preserved o resolve dt_ok wfail scale nslabs exts nmat D K od i :
-  harmonised K i -> alias_stable resolve i ->
-  rimg (snd (run_save o resolve dt_ok wfail scale nslabs exts nmat D K od i)) = i.
-Proof. intros Hh Ha. unfold run_save. rewrite save_final. cbn. now apply expected_stable. Qed.
-
-(* with a pending alias: everything but the header datatype *)
-Lemma final_state o resolve dt_ok wfail scale nslabs exts nmat D K od i :
   harmonised K i ->
-  let i' := rimg (snd (run_save o resolve dt_ok wfail scale nslabs exts nmat D K od i)) in
-  alias i' = alias i /\ data i' = data i /\ aff i' = aff i /\
-  off (ih i') = off (ih i) /\ slope (ih i') = slope (ih i) /\ inter (ih i') = inter (ih i) /\
-  magic (ih i') = magic (ih i) /\
-  (dt (ih i') = dt (ih i) \/
-   exists a r, alias i = Some a /\ resolve a (data i) = Some r /\ dt (ih i') = r /\ nifti K = true).
-Proof.
-  intros Hh i'. subst i'. unfold run_save. rewrite save_final. cbn [start rimg].
-  unfold expected. destruct (fam K); try (repeat split; auto; fail).
-  destruct (nifti K) eqn:En; [|repeat split; auto].
-  destruct (alias i) as [a|] eqn:Ea.
-  - destruct (resolve a (data i)) as [r|] eqn:Er; [|repeat split; auto].
-    assert (Hm : harmonised K (with_dt r i)) by (unfold harmonised in *; cbn; auto).
-    rewrite (harm_id _ _ Hm). cbn. repeat split; auto. right. exists a, r. auto.
-  - rewrite (harm_id _ _ Hh). repeat split; auto.
-Qed.
+  rimg (snd (run_save o resolve dt_ok wfail scale nslabs exts nmat D K od i)) = i.
+Proof. intros Hh. unfold run_save. rewrite save_final. cbn. now apply expected_id. Qed.
 
 (* a save from the state any earlier run left behind = a save from the original state *)
 Lemma retry_same o o2 resolve dt_ok wfail scale nslabs exts nmat D K od od2 i :
@@ -307,19 +285,4 @@ Lemma retry_same o o2 resolve dt_ok wfail scale nslabs exts nmat D K od od2 i :
   let i1 := rimg (snd (run_save o resolve dt_ok wfail scale nslabs exts nmat D K od i)) in
   run_save o2 resolve dt_ok wfail scale nslabs exts nmat D K od2 i1 =
   run_save o2 resolve dt_ok wfail scale nslabs exts nmat D K od2 i.
-Proof.
-  intros Hh i1. subst i1. unfold run_save at 2. rewrite save_final. cbn [start rimg].
-  unfold expected. destruct (fam K) eqn:Ef; try reflexivity.
-  destruct (nifti K) eqn:En; [|reflexivity].
-  destruct (alias i) as [a|] eqn:Ea.
-  - destruct (resolve a (data i)) as [r|] eqn:Er; [|reflexivity].
-    assert (Hm : harmonised K (with_dt r i)) by (unfold harmonised in *; cbn; auto).
-    rewrite (harm_id _ _ Hm).
-    unfold run_save, save. rewrite Ef, En.
-    assert (E : nifti_save o2 resolve dt_ok wfail scale nslabs exts D K od2 (start (with_dt r i)) =
-                nifti_save o2 resolve dt_ok wfail scale nslabs exts D K od2 (start i)).
-    { unfold nifti_save, bind, get_img. cbn [start rimg with_dt with_hdr alias data].
-      rewrite Ea, Er. destruct i as [[o0 d0 s0 n0 m0] al0 da0 af0]. reflexivity. }
-    unfold bind. rewrite E. reflexivity.
-  - rewrite (harm_id _ _ Hh). reflexivity.
-Qed.
+Proof. intros Hh i1. subst i1. now rewrite preserved. Qed.
